@@ -4,6 +4,7 @@ the property text, a scratch worktree path and one-line summaries of all earlier
 property (so that the agent looks elsewhere). Nothing from /verif other than those summaries is given."""
 import glob, json, os, sys
 rnd, out = sys.argv[1], sys.argv[2]
+flavour = open(sys.argv[3]).read().strip() if len(sys.argv) > 3 else ""
 os.makedirs(out, exist_ok=True)
 props = [json.loads(l) for l in open('/verif/properties.jsonl')]
 for p in props:
@@ -31,7 +32,7 @@ TASK. Produce 3 NEW source changes to NON-test .go files of the library. Each ch
  2. still compile, and leave the ENTIRE existing test suite passing, unedited;
  3. break the property above;
  4. need something specific to manifest (an unusual input, a particular operator combination, a multi-step sequence, a particular goroutine interleaving, or two cooperating sites that each look fine alone).
-Earlier rounds already produced the changes listed below — do NOT repeat them or close variants; look for DIFFERENT mechanisms and different code locations. This time prefer SUBTLE changes of VALUES and CONDITIONS over structural ones: an off-by-one in a length or index test, a comparison operator (< vs <=), a swapped pair of arguments, a wrong constant in a table entry, a case missing from (or added to) a switch, a condition that is right for the tested inputs but wrong in general, a default changed, a format verb or SQL fragment changed for one operator only, a copy that should have been made (or not), an early return added for a case that looked redundant. Also consider the interplay of two features (default field x ranges, lists x wildcards, escaping x keywords, JSON x boost/fuzzy defaults, negative numbers, open range ends).
+Earlier rounds already produced the changes listed below — do NOT repeat them or close variants; look for DIFFERENT mechanisms and different code locations. {{FLAVOUR}}
 {chr(10).join(earlier)}
 Make the three changes different in kind and in location. Keep each change small (1-25 changed lines).
 
@@ -42,5 +43,5 @@ For each change k = 1,2,3 write into {out}/{pid}-k/ :
 Verify every one of those claims yourself by actually running the commands. Do not weaken or edit existing tests. If an idea fails one of the requirements, discard it and try another.
 When you finish, leave the worktree clean. Reply with a 5-line summary of the three changes.
 """
-    open(os.path.join(out, f"prompt-{pid}.txt"), 'w').write(text)
+    open(os.path.join(out, f"prompt-{pid}.txt"), 'w').write(text.replace("{FLAVOUR}", flavour))
 print("wrote", len(props), "prompts to", out)
